@@ -370,7 +370,7 @@ def judge(events, props, module="TraceW", timeout=1800, tag="judge", chunks=None
     """Trace validation: TLC judges the recorded events.  Returns
     (verdicts, stats): verdicts = list of dict(case, line, prop, conjunct)."""
     if not events:
-        return [], {"events": 0, "cases": 0, "wall": 0.0, "tlc_states": 0}
+        return [], {"events": 0, "cases": 0, "wall": 0.0, "tlc_states": 0, "drift": 0}
     # split into chunks at case boundaries and judge them in parallel TLC processes
     nchunks = chunks or max(1, min(NCPU, len(events) // 1500))
     bounds = [i for i, e in enumerate(events) if e.get("ev") == "Reset"]
@@ -399,15 +399,16 @@ def judge(events, props, module="TraceW", timeout=1800, tag="judge", chunks=None
             seen.add(key)
             vs.append({"case": m.group(1), "line": int(m.group(2)), "prop": m.group(3), "conjunct": m.group(4)})
         shutil.rmtree(res["dir"], ignore_errors=True)
-        return vs, res["distinct"]
+        return vs, res["distinct"], out.count('<<"DRIFT"')
 
-    verdicts, states = [], 0
+    verdicts, states, drift = [], 0, 0
     with cf.ThreadPoolExecutor(max_workers=min(len(parts), NCPU)) as ex:
-        for vs, st in ex.map(one, list(enumerate(parts))):
+        for vs, st, dr in ex.map(one, list(enumerate(parts))):
             verdicts += vs
             states += st
+            drift += dr
     ncases = sum(1 for e in events if e.get("ev") == "Reset")
-    return verdicts, {"events": len(events), "cases": ncases, "wall": time.time() - t0, "tlc_states": states}
+    return verdicts, {"events": len(events), "cases": ncases, "wall": time.time() - t0, "tlc_states": states, "drift": drift}
 
 
 # --------------------------------------------------------------------------- shapes
